@@ -110,12 +110,17 @@ def seeded(n, names, tier="quick"):
                 entry["replay_head"] = open(rp).read()[:1500]
         print(name, pid, status, "%.0fs" % (time.time() - t0), flush=True)
         # merge under a lock-free read-modify-write (lanes finish minutes apart; last writer re-reads first)
-        try:
-            results = json.load(open(res_path))
-        except (OSError, ValueError):
-            results = {}
-        results[name] = entry
-        json.dump(results, open(res_path, "w"), indent=1, sort_keys=True)
+        import fcntl
+        with open(res_path + ".lock", "w") as lk:
+            fcntl.flock(lk, fcntl.LOCK_EX)
+            try:
+                results = json.load(open(res_path))
+            except (OSError, ValueError):
+                results = {}
+            results[name] = entry
+            tmp = res_path + ".tmp.%d" % os.getpid()
+            json.dump(results, open(tmp, "w"), indent=1, sort_keys=True)
+            os.replace(tmp, res_path)
 
 
 def ext_new(pid):
